@@ -21,6 +21,7 @@ RULE = (
     'ordered pair of operand kinds whose structures differ in a shape, a dtype, a container type or the Stokes kind, '
     'for @ + -, and non-scalar "scalars" for * and /: the expression must raise and not return an operator. '
     'non-trivial = ill-typed pair, or a tree with >=3 leaves having a composite operand on both sides of some node.'
+    ' Also: an operator and its own lazy inverse around or beside a third operator (A @ (Y @ A.I), (A.I @ Y) @ A, ...), in both groupings.'
     ' Also (relatives): X.I @ Y and Y @ X.I for Y a different operator made of the same array objects as X (transpose, A@A.T vs A.T@A, D@A vs A@D, an equal-valued copy): the result is an IdentityOperator only if the reference matrices agree.'
 )
 ASSUMPTIONS = [
@@ -68,14 +69,27 @@ def arith_tree(draw, G, S, n):
         if shared and draw(st.integers(0, 2)) == 0:
             # the SAME composite object used again (operand reuse): building one expression must not modify it
             return draw(st.sampled_from(shared))
-        kind = draw(st.sampled_from(KINDS + ['plain', 'shared']))
+        kind = draw(st.sampled_from(KINDS + ['plain', 'shared', 'shared']))
         if kind == 'shared':
-            r, _ = gen.invertible(draw, G, S)
+            sandwich = draw(st.booleans())
+            r, closed = gen.invertible(draw, G, S)
+            if sandwich and closed:
+                r, closed = gen.invertible(draw, G, S)  # (a second draw: prefer an operator whose inverse stays lazy)
             A = G.define(r)
             # A.I @ A or A @ A.I built with the operator: construction-time shortcut
             pair = [{'k': 'I', 'op': A}, A]
             if draw(st.booleans()):
                 pair.reverse()
+            if sandwich:
+                # A and its lazy inverse around (or next to) another operator Y, in both groupings: only the adjacent
+                # pair may cancel, A @ (Y @ A.I) is the similarity transform A Y A^-1
+                Y = operand_of_kind(draw, G, S, draw(st.sampled_from(['plain', 'plain', 'plain', 'composition'])))
+                trio = draw(st.sampled_from([[pair[0], Y, pair[1]], [pair[0], Y, pair[1]], [pair[0], pair[1], Y], [Y, pair[0], pair[1]]]))
+
+                def c2(a_, b_):
+                    return {'k': 'compose', 'ops': [a_, b_], 'via': 'matmul', 'tree': [0, 1]}
+
+                return c2(trio[0], c2(trio[1], trio[2])) if draw(st.booleans()) else c2(c2(trio[0], trio[1]), trio[2])
             return {'k': 'compose', 'ops': pair, 'via': 'matmul', 'tree': [0, 1]}
         leaf = operand_of_kind(draw, G, S, kind)
         un = draw(st.sampled_from(['none'] * 5 + ['neg', 'pos', 'scale']))
